@@ -9,6 +9,13 @@ Check (C15_inorder : forall c h,
 Check (C15_join_correlates : forall c h,
   ((1 <= cap c)%nat /\ Forall (fun a : arrival => In (fst a) (sources c)) h) ->
   ~ (sorted_ts h = false) -> outputs c h = map Out (spec_run c h)).
+Check (C15_any_order_sound : forall c h,
+  ((1 <= cap c)%nat /\ Forall (fun a : arrival => In (fst a) (sources c)) h) ->
+  Forall2 (fun o sp => match o with
+                       | Out (Some ch) => sp = Some ch
+                       | Out None => True
+                       | Panicked => False
+                       end) (outputs c h) (spec_run c h)).
 Check (C15_spec_produces_iff : forall c past a k,
   key_of c a = Some k ->
   (spec_out c past a <> None <->
@@ -39,6 +46,7 @@ Check (C15_ooo_refuted_cap : exists c h,
 
 Print Assumptions C15_inorder.
 Print Assumptions C15_join_correlates.
+Print Assumptions C15_any_order_sound.
 Print Assumptions C15_spec_produces_iff.
 Print Assumptions C15_spec_most_recent.
 Print Assumptions C15_output_fields.
